@@ -10,6 +10,7 @@ import (
 	"sort"
 	"strings"
 	"sync/atomic"
+	"time"
 
 	"github.com/go-spatial/geom"
 	gogpkg "github.com/go-spatial/geom/encoding/gpkg"
@@ -131,9 +132,24 @@ func colValue(c ColSpec, v any) any {
 		return int64(v.(float64))
 	case "REAL":
 		return v.(float64)
+	case "DATETIME": // what the tool's reader hands on for such a column: a time.Time
+		tm, err := time.Parse(time.RFC3339Nano, v.(string))
+		if err != nil {
+			panic(err)
+		}
+		return tm
 	default:
 		return v.(string)
 	}
+}
+
+// sameValue compares an attribute value read back from a file with the expected one (instants for times).
+func sameValue(got, want any) bool {
+	if gt, ok := got.(time.Time); ok {
+		wt, ok := want.(time.Time)
+		return ok && gt.Equal(wt)
+	}
+	return reflect.DeepEqual(got, want)
 }
 
 func (t TableSpec) gtype() gogpkg.GeometryType {
@@ -377,7 +393,7 @@ func compareTable(rt readTable, t TableSpec, want []expectedRow, src *readTable)
 			return fmt.Sprintf("table %s row %d has %d attribute values, expected %d", t.Name, i, len(r.Vals), len(w.Vals))
 		}
 		for k := range w.Vals {
-			if !reflect.DeepEqual(r.Vals[k], w.Vals[k]) {
+			if !sameValue(r.Vals[k], w.Vals[k]) {
 				return fmt.Sprintf("table %s row with key %d, column %s: %#v, expected %#v", t.Name, w.PK, t.Cols[k].Name, r.Vals[k], w.Vals[k])
 			}
 		}
@@ -448,7 +464,7 @@ func drawTableSkeleton(t *rapid.T, idx int, gtypes []string) TableSpec {
 		SRS: rapid.SampledFrom([]int{4326, 3857, 28992}).Draw(t, "srs")}
 	nc := rapid.IntRange(0, 4).Draw(t, "cols")
 	for i := 0; i < nc; i++ {
-		ts.Cols = append(ts.Cols, ColSpec{Name: fmt.Sprintf("c%d_%s", i, identGen.Draw(t, "col")), Type: rapid.SampledFrom([]string{"INTEGER", "REAL", "TEXT"}).Draw(t, "ctype"), NotNull: rapid.IntRange(0, 3).Draw(t, "notnull") == 0})
+		ts.Cols = append(ts.Cols, ColSpec{Name: fmt.Sprintf("c%d_%s", i, identGen.Draw(t, "col")), Type: rapid.SampledFrom([]string{"INTEGER", "REAL", "TEXT", "INTEGER", "REAL", "TEXT", "DATETIME"}).Draw(t, "ctype"), NotNull: rapid.IntRange(0, 3).Draw(t, "notnull") == 0})
 	}
 	ts.GeomPos = rapid.IntRange(0, nc).Draw(t, "geompos")
 	return ts
@@ -465,6 +481,10 @@ func drawVals(t *rapid.T, cols []ColSpec) []any {
 			vals[i] = float64(rapid.Int64Range(-1<<40, 1<<40).Draw(t, "int"))
 		case "REAL":
 			vals[i] = rapid.SampledFrom([]float64{0, 1.5, -2.25, 1e-9, 12345.678, 3}).Draw(t, "real") + float64(rapid.IntRange(0, 1000).Draw(t, "r2"))/8
+		case "DATETIME": // instants with milli-, micro- and nanosecond digits
+			frac := rapid.SampledFrom([]string{"", ".5", ".123", ".123456", ".999999999", ".000001"}).Draw(t, "frac")
+			vals[i] = fmt.Sprintf("20%02d-%02d-%02dT%02d:%02d:%02d%sZ", rapid.IntRange(0, 40).Draw(t, "yy"), rapid.IntRange(1, 12).Draw(t, "mo"), rapid.IntRange(1, 28).Draw(t, "dd"),
+				rapid.IntRange(0, 23).Draw(t, "hh"), rapid.IntRange(0, 59).Draw(t, "mi"), rapid.IntRange(0, 59).Draw(t, "ss"), frac)
 		default:
 			vals[i] = rapid.StringMatching(`[a-zA-Z0-9 ,.'"%_-]{0,12}`).Draw(t, "text")
 		}
